@@ -1,6 +1,6 @@
 """Per-property recipes: which design-level TLC configurations are run, how
 real executions are recorded, which events the property speaks about."""
-import json, os
+import json, os, re
 import vlib
 from vlib import Infra
 
@@ -49,6 +49,21 @@ def mc_kdf(tier, seed):
         return []
     cfg = "SPECIFICATION Spec\nCONSTANTS Seed0 = %d NCases = 16\nINVARIANTS SeedByDefinitionAgrees\nCHECK_DEADLOCK FALSE\n" % (seed % 1000)
     return [vlib.run_mc("MC_Kdf", cfg, timeout=3000)]
+
+
+def proof_gates(tier, seed):
+    """the gate lemmas for all integers, by the TLA+ proof system"""
+    d = vlib.scratch("verif-tlaps-")
+    vlib.shutil.copy(os.path.join(vlib.SPEC, "GateLemmas.tla"), d)
+    import subprocess as sp, time as _t
+    t0 = _t.time()
+    r = sp.run(["timeout", "600", "tlapm", "--threads", "8", "GateLemmas.tla"], cwd=d, capture_output=True, text=True)
+    out = r.stdout + r.stderr
+    m = re.search(r"All (\d+) obligations? proved", out)
+    if not m:
+        raise Infra("tlapm did not prove GateLemmas.tla:\n" + out[-1500:])
+    n = int(m.group(1))
+    return dict(module="GateLemmas[TLAPS: %d obligations proved]" % n, states=n, distinct=n, wall_s=round(_t.time() - t0, 1))
 
 
 MC_UNICODE = mc_simple("MC_Unicode", None, ["DecompositionIsNormal", "MarksAreOrdered", "SeparatorsNormalise"])
@@ -228,7 +243,7 @@ RECIPES = {
                 speaks=lambda e: e.get("op") in ("ByEntropy", "Check", "ListSource"),
                 rule="all 10 x 2048 list indices: the word emitted through NewMnemonicByEntropy for every index (cover family), validation of sentences "
                      "containing every word and of the same sentences with one word replaced by a list neighbour, and the parsed source text of internal/wordlist/*.go"),
-    "C09": dict(mc=[MC_GATES], record=phased_recorder("C09"), props=["C09", "DRIFT"], exhaustive=True,
+    "C09": dict(mc=[MC_GATES, proof_gates], record=phased_recorder("C09"), props=["C09", "DRIFT"], exhaustive=True,
                 speaks=lambda e: e.get("op") in ("ByEntropy", "NewMnemonic", "Read", "Crash"),
                 rule="every entropy length 0..4096 (+nil, +2^16/2^20/2^24 +-{0,1,4}) and every word count -4096..4096 (+extremes of int) under a counting source; "
                      "distinct by (operation, length or count, language)"),
@@ -669,7 +684,7 @@ RECIPES["C13"] = dict(mc=[mc_history, mc_drive_history], record=record_c13, prop
 # --------------------------------------------------------------------------
 # C12: goroutine programs in fresh processes of a -race build
 def mc_once(tier, seed):
-    base = 'SPECIFICATION Spec\nCONSTANTS G = {g1, g2, g3} L = {en, fr} Calls = 2 OnceImpl = "%s"\nINVARIANTS NoRace LookupSeesFullMap ResultsEqualSequential BuiltAtMostOnce\nCHECK_DEADLOCK FALSE\n'
+    base = 'SPECIFICATION Spec\nCONSTANTS G = {g1, g2, g3} L = {en, fr} Calls = 2 OnceImpl = "%s"\nINVARIANTS NoRace LookupSeesFullMap ResultsEqualSequential BuiltAtMostOnce\nPROPERTY ImplementsAtomicMaps\nCHECK_DEADLOCK FALSE\n'
     res = [vlib.run_mc("MC_Once", base % "once", timeout=900)]
     r = vlib.run_mc("MC_Once", base % "nilcheck", timeout=300, workers=4, expect_violation="is violated")
     r["module"] = "MC_Once[nilcheck control]"
